@@ -255,6 +255,7 @@ func runC09(ch chooser.Chooser, st *Stats, mk cacheMaker) *Outcome {
 	env.cur = func() int { return main }
 	out.Hash = res.Hash
 	out.Steps = res.Steps
+	out.Detached = res.Detached
 	out.schedule = scheduleOf(res)
 
 	// Assemble the history from the event log.
@@ -305,6 +306,7 @@ func runC09(ch chooser.Chooser, st *Stats, mk cacheMaker) *Outcome {
 	if res.Contended > 0 {
 		st.Inc("probe:lock_contention_seen", 1)
 	}
+	st.Inc("sched:threads_detached", int64(res.Detached))
 	st.Inc("sched:context_switches", int64(res.Switches))
 	st.Inc("sched:steps_with_a_blocked_thread", int64(res.Contended))
 
@@ -491,6 +493,8 @@ func kindName(e sched.Event) string {
 		return fmt.Sprintf("cond(c%d).Signal", e.Obj)
 	case simsync.KCondBroadcast:
 		return fmt.Sprintf("cond(c%d).Broadcast", e.Obj)
+	case sched.KDetach:
+		return "no answer: detached (blocked outside the simulator's primitives, spinning, or slow)"
 	case sched.KAnnounce:
 		return fmt.Sprintf("lock(m%d) called: pending, readers hold it", e.Obj)
 	case sched.KStart:
